@@ -171,6 +171,22 @@ func runC10(c *core.Ctx) error {
 		return err
 	}
 	c.AddTLC(cfg, res)
+	// a type object shared by two roots (SchemaApi_shared.cfg): complete on one, incomplete on the other
+	shared, err := tlc.Run(tlc.Opts{Module: "SchemaApi", Cfg: "SchemaApi_shared.cfg", Workers: 16, Timeout: 40 * time.Minute, OnLine: func(l string) {
+		n++
+		if !c.Thorough() && (n+int(c.Seed))%2 != 0 {
+			return
+		}
+		cases = append(cases, json.RawMessage(l))
+	}})
+	shared.Cleanup()
+	if err != nil {
+		return err
+	}
+	if err := shared.MustOK(); err != nil {
+		return err
+	}
+	c.AddTLC("SchemaApi_shared.cfg", shared)
 	c.Set("histories", len(cases))
 	// repetition sweeps, spread over the worker processes
 	for i := 0; i < 48; i++ {
